@@ -123,6 +123,8 @@ class Exec:
             return k(SClosure("func", f"{self.P.func_module[e.id]}.{e.id}"), st)
         if e.id in ("fggs", "utils", "copy", "itertools", "warnings", "torch"):
             return k(SClosure("module", e.id), st)
+        if e.id in ("inf", "nan"):                     # from math import inf, nan: floats are not modelled
+            return k(SOpaqueObj("float " + e.id), st)
         raise Unsupported(f"unbound name {e.id}")
 
     def ev_Tuple(self, e, st, k):
